@@ -5,6 +5,7 @@ import (
 	"fmt"
 	"io"
 	"log/slog"
+	"math"
 	"slices"
 	"github.com/AdguardTeam/AdGuardHome/verifx/vtime"
 
@@ -117,7 +118,7 @@ func (l *queryLog) search(
 
 	total += bufLen
 
-	totalLimit := params.offset + params.limit
+	totalLimit := totalLimit(params)
 
 	// now let's get a unified collection
 	entries = append(memoryEntries, fileEntries...)
@@ -160,6 +161,17 @@ func (l *queryLog) search(
 	return entries, oldest
 }
 
+// totalLimit returns the maximum number of the newest matching records that are
+// needed to build the page requested by params.  The offset and the limit are
+// validated to be non-negative when parsed.
+func totalLimit(params *searchParams) (n int) {
+	if params.limit > math.MaxInt-params.offset {
+		return math.MaxInt
+	}
+
+	return params.offset + params.limit
+}
+
 // seekRecord changes the current position to the next record older than the
 // provided parameter.
 func (r *qLogReader) seekRecord(ctx context.Context, olderThan time.Time) (err error) {
@@ -168,9 +180,11 @@ func (r *qLogReader) seekRecord(ctx context.Context, olderThan time.Time) (err e
 	}
 
 	err = r.seekTS(ctx, olderThan.UnixNano())
-	if err == nil {
+	if err == nil && r.seekExact {
 		// Read to the next record, because we only need the one that goes
-		// after it.
+		// after it.  Don't skip anything if the reader has been positioned at
+		// the start of the log, since the record with this timestamp isn't in
+		// the files, e.g. it is still in the memory buffer.
 		_, err = r.ReadNext()
 	}
 
@@ -269,8 +283,7 @@ func (l *queryLog) searchFiles(
 		}
 	}()
 
-	totalLimit := params.offset + params.limit
-	entries, oldestNano, total := l.readEntries(ctx, r, params, cache, totalLimit)
+	entries, oldestNano, total := l.readEntries(ctx, r, params, cache, totalLimit(params))
 	if oldestNano != 0 {
 		oldest = time.Unix(0, oldestNano)
 	}
